@@ -282,7 +282,54 @@ def replay_state(op, A, B, start, length):
             'expected_as_sets': {'ret': exp_ret, 'set': exp_set}}
 
 
+def aset_expr(ranges):
+    if not ranges:
+        return '0 0 aset'
+    parts = ['%d %d aset' % (s, s + l) for s, l in ranges]
+    return parts[0] + ''.join(' %s add' % p for p in parts[1:])
+
+
+def parse_aset(txt):
+    import re
+    out = []
+    for a, b in re.findall(r'\[(0x[0-9a-f]+|\d+), (0x[0-9a-f]+|\d+)\)', txt):
+        a, b = int(a, 0), int(b, 0)
+        out.append((a, b - a))
+    return out
+
+
+def replay_word(r):
+    """Zwerg words over address sets, on the real library through queries, against the interval-set oracle."""
+    word = r.job.name[len('bounded_word_'):].rsplit('_n', 1)[0]
+    A = cex_state(r.cex, 'arr', 'a.cov.__base0.len')
+    B = cex_state(r.cex, 'arr2', 'b.cov.__base0.len')
+    qa, qb = aset_expr(A), aset_expr(B)
+    zw = {'contains': '?contains', 'overlaps': '?overlaps', 'overlap': 'overlap', 'add': 'add', 'sub': 'sub', 'length': 'length'}[word]
+    q = ('%s %s' % (qa, zw)) if word == 'length' else ('%s %s %s' % (qa, qb, zw))
+    res = vlib.zw_queries([q], OUT, dw=True)
+    if not res or res[0][0] is None:
+        return {'reproduced': False, 'error': 'query failed: %r' % (res,), 'query': q}
+    cnt, txt = res[0]
+    cA, cB = canon(A), canon(B)
+    if word == 'contains':
+        exp = int(inter(cA, cB) == cB)
+        bad = (cnt > 0) != bool(exp)
+    elif word == 'overlaps':
+        exp = int(bool(inter(cA, cB)))
+        bad = (cnt > 0) != bool(exp)
+    elif word == 'length':
+        exp = sum(l for _, l in cA)
+        bad = txt.strip().strip('<>').split('|')[-1] not in (str(exp), hex(exp))
+    else:
+        exp = {'overlap': inter(cA, cB), 'add': canon(cA + cB), 'sub': diff(cA, cB)}[word]
+        got = parse_aset(txt.strip().strip('<>').split('|')[-1])
+        bad = got != exp
+    return {'reproduced': bool(bad), 'query': q, 'real_library': txt.strip()[:200], 'expected_as_sets': exp}
+
+
 def replay(r):
+    if r.job.name.startswith('bounded_word_'):
+        return replay_word(r)
     name = r.job.name
     op = None
     for o in ('is_covered', 'is_overlap', 'intersect', 'add_all', 'remove_all', 'add', 'remove'):
